@@ -714,7 +714,20 @@ pub fn merger(rhs: Value, lhs: Value) -> Result<Value, Error> {
             Value::Tuple { elements, optional },
         ) => {
             let mut variants = BTreeSet::default();
-            variants.insert(r#type.deref().clone());
+            match r#type.deref().clone() {
+                Value::OneOf {
+                    variants: inner,
+                    optional: inner_opt,
+                } => {
+                    if inner_opt {
+                        variants.insert(Value::Null);
+                    }
+                    variants.extend(inner);
+                }
+                other => {
+                    variants.insert(other);
+                }
+            }
             for element in elements {
                 variants.insert(element.as_non_optional());
             }
@@ -1072,7 +1085,20 @@ pub fn merger(rhs: Value, lhs: Value) -> Result<Value, Error> {
             if elements.iter().any(Value::is_optional) || r#type.is_optional() {
                 variants.insert(Value::Null);
             }
-            variants.insert(r#type.deref().clone());
+            match r#type.deref().clone() {
+                Value::OneOf {
+                    variants: inner,
+                    optional: inner_opt,
+                } => {
+                    if inner_opt {
+                        variants.insert(Value::Null);
+                    }
+                    variants.extend(inner);
+                }
+                other => {
+                    variants.insert(other);
+                }
+            }
             for element in elements {
                 variants.insert(element.as_non_optional());
             }
